@@ -7,7 +7,7 @@ wt=$1; mk=$2; id=$(basename $wt)
 d=$wt/SEEDED/$mk
 cd $wt || exit 2
 git checkout -q -- . 2>/dev/null
-crate=$(grep -oE "cargo test.* -p [a-z_0-9]+" $d/notes.md | head -1 | grep -oE "\-p [a-z_0-9]+" | head -1 | cut -c4-)
+crate=$(grep -m1 "^CRATE:" $d/notes.md | sed "s/CRATE: *//" | tr -d ' \140'); [ -z "$crate" ] && crate=$(grep -oE "cargo test.* -p [a-z_0-9]+" $d/notes.md | head -1 | grep -oE "\-p [a-z_0-9]+" | head -1 | cut -c4-)
 [ -z "$crate" ] && crate=bemodel
 demo=$(ls $d | grep -E "demo.*\.rs$" | head -1)
 if [ -z "$demo" ]; then echo "$id/$mk: no rust demo file (see notes)"; exit 3; fi
